@@ -303,6 +303,14 @@ func (idx *IVFPQIndex) Add(vector VectorNode) error {
 		return err
 	}
 
+	// Re-adding an ID whose removal is still pending: apply the pending removals first,
+	// otherwise the tombstone would hide the new vector (and the next Flush would drop it)
+	if idx.deletedNodes.Contains(vector.ID()) {
+		if err := idx.flushLocked(); err != nil {
+			return err
+		}
+	}
+
 	// Find nearest IVF centroid
 	listIdx := FindNearestCentroidIndex(vector.Vector(), idx.centroids, idx.distance)
 
@@ -409,6 +417,11 @@ func (idx *IVFPQIndex) Flush() error {
 	idx.mu.Lock()
 	defer idx.mu.Unlock()
 
+	return idx.flushLocked()
+}
+
+// flushLocked is Flush for callers that already hold the write lock.
+func (idx *IVFPQIndex) flushLocked() error {
 	// Quick exit if nothing to flush
 	deletedCount := int(idx.deletedNodes.GetCardinality())
 	if deletedCount == 0 {
